@@ -93,17 +93,17 @@ def run(chk):
         'a command writing {0,1000,70000,300000} bytes to stdout x the same to stderr (pipe capacity 65536), succeeding or failing, with a dependent; ' +
         ('60 of the 543 DAGs on 4 steps + all DAGs on 2..3 steps' if quick else 'ALL 543 DAGs on 4 steps x 4 + all DAGs on <= 3 steps x 10 + 150 random DAGs on 5..8 steps') +
         ' with random outcomes (35 % failing commands, 20 % of the private input files missing, 25 % large outputs), when-options, pools 1/2/4, one or two runs. '
-        'Each case runs on the hook-free binary and on the hook build with seeded delays (traces validated by the model driver). Timeout 20 s per run '
+        'Each case runs on the hook-free binary and on the hook build with seeded delays (traces validated by the model driver). Timeout 12 s (quick) / 20 s (thorough) per run '
         '(commands sleep <= 90 ms).')
     chk.extra['exhaustive'] = not quick
-    sc.run_family(ctx, 'outcomes/plain', cases, OWN, hook=False, timeout=20)
+    sc.run_family(ctx, 'outcomes/plain', cases, OWN, hook=False, timeout=12 if quick else 20)
     if ctx.xvc_hook:
         hooked = []
         for k, c in enumerate(cases):
             c2 = dict(c)
             c2['sched'] = f'{chk.seed * 15485863 + k}:{chk.rng.choice([0, 200, 1500, 5000])}'
             hooked.append(c2)
-        sc.run_family(ctx, 'outcomes/hook', hooked, OWN, hook=True, timeout=20)
+        sc.run_family(ctx, 'outcomes/hook', hooked, OWN, hook=True, timeout=12 if quick else 20)
     return chk.finish()
 
 
